@@ -36,8 +36,8 @@ ASSUMPTIONS = ['plugin callback failures are Exception-class (a BaseException fr
 
 BUILTIN = ['deep.api.plugin.otel.OTelPlugin', 'deep.api.plugin.python.PythonPlugin',
            'deep.api.plugin.metric.prometheus_metrics.PrometheusPlugin', 'deep.api.plugin.metric.otel_metrics.OTelMetrics']
-OFF = ['False', 'false', '0', 'no', 'off', 'F', False, 0, '', 'env:', 'env:false', 'env:0']
-ON = ['True', 'true', '1', 'yes', 't', 'Y', 'env:true', 'env:1']
+OFF = ['False', 'false', '0', 'no', 'off', 'F', False, 0, '', 'env:', 'env:false', 'env:0', 2, -1]
+ON = ['True', 'true', '1', 'yes', 't', 'Y', 'env:true', 'env:1', True, 1]
 _G = {}
 
 
@@ -76,7 +76,16 @@ def make_class(name, kind, rec, fail, order, ctor_raises=False):
         self.config = config
     # is_active is the REAL Plugin.is_active (reads PLUGIN_<NAME> from the config)
     from deep.api.plugin import Plugin
-    return type(name, bases, {'__init__': __init__, 'is_active': Plugin.is_active})
+
+    def order_(self):
+        if order == 'raise':
+            raise fc_env.PluginError('order() of ' + name)
+        if order == 'text':
+            return 'high'
+        if order == 'list':
+            return [1]
+        return order
+    return type(name, bases, {'__init__': __init__, 'is_active': Plugin.is_active, 'order': order_})
 
 
 def new_module(classes):
@@ -111,8 +120,8 @@ def gen_load(rng):
         elif sw < 0.3:
             switch = rng.choice(ON)
         customs.append({'name': f'Q{i}', 'how': how, 'switch': switch,
-                        'order': rng.choice([None, 0, 0, 1, -1, 5, -7, 2, 2, 100])})
-    return {'kind': 'load', 'builtin_switch': [rng.choice([None, None, 'False', 'True', 'no', False, 0, '', 'env:']) for _ in BUILTIN],
+                        'order': rng.choice([None, 0, 0, 1, -1, 5, -7, 2, 2, 100, 'raise', 'text', 'list'])})
+    return {'kind': 'load', 'builtin_switch': [rng.choice([None, None, 'False', 'True', 'no', False, 0, '', 'env:', True]) for _ in BUILTIN],
             'customs': customs}
 
 
@@ -140,6 +149,8 @@ def gen_callbacks(rng, tier):
         # a plugin of some kind that is switched off by configuration: never loaded, none of its callbacks runs
         off = {'name': 'x1', 'kind': rng.choice(['resource', 'decorator', 'logger', 'metric', 'span']),
                'switch': rng.choice(OFF), 'order': rng.choice([-5, 0, 4]), 'at': rng.randint(0, len(plugins))}
+        if rng.random() < 0.3:
+            off.update(switch=None, order=rng.choice(['raise', 'text']))       # not loadable because of its order()
     # how a failing shutdown() fails: an Exception, a BaseException, or the project's own IllegalStateException
     # (a BaseException) raised when the plugin submits a last task after the task handler was closed
     sd_cls = rng.choice(['exc', 'base', 'submit'])
@@ -180,6 +191,13 @@ def corpus():
                      {'name': 'Q2', 'how': 'ok', 'switch': '', 'order': 1},
                      {'name': 'Q3', 'how': 'ok', 'switch': 'env:', 'order': 1},
                      {'name': 'Q4', 'how': 'ok', 'switch': None, 'order': 3}]},
+        {'kind': 'load', 'builtin_switch': [True, None, 1, 'env:true'],
+         'customs': [{'name': 'Q0', 'how': 'ok', 'switch': None, 'order': 'raise'},
+                     {'name': 'Q1', 'how': 'ok', 'switch': True, 'order': 2},
+                     {'name': 'Q2', 'how': 'ok', 'switch': None, 'order': 'text'},
+                     {'name': 'Q3', 'how': 'ok', 'switch': 1, 'order': -4},
+                     {'name': 'Q4', 'how': 'ok', 'switch': 2, 'order': 0},
+                     {'name': 'Q5', 'how': 'ok', 'switch': None, 'order': 'list'}]},
         dict(cb([['d1', 'decorate']]), off={'name': 'x1', 'kind': 'decorator', 'switch': False, 'order': -5, 'at': 2}),
         dict(cb([]), off={'name': 'x1', 'kind': 'logger', 'switch': '', 'order': -5, 'at': 0}),
         cb([['m1', 'metric']]),                         # D21
@@ -231,9 +249,11 @@ def truthy(s):
     """is a plugin with this PLUGIN_<NAME> switch active?  (statement: switched off by configuration = any value
     other than the documented true spellings; values that are not text — Python False, 0 — switch it off too: the
     loader skips a plugin whose switch it cannot read)"""
+    if s is None:
+        return True
     if isinstance(s, str) and s.startswith('env:'):
         s = s[4:]
-    return isinstance(s, str) and s.lower() in ('yes', 'true', 't', '1', 'y')
+    return str(s).lower() in ('yes', 'true', 't', '1', 'y')      # text, or a bool / number given in code
 
 
 def apply_switches(custom, switches):
@@ -263,11 +283,21 @@ def load_specs(case):
     out = []
     ok = G()['builtin_ok']
     for i, (b, sw) in enumerate(zip(BUILTIN, case['builtin_switch'])):
-        out.append((b.rsplit('.', 1)[1], i, ok[b], True, sw is None or truthy(sw), 0))
+        out.append((b.rsplit('.', 1)[1], i, ok[b], True, truthy(sw), 0, sw))
     for i, c in enumerate(case['customs']):
         out.append((c['name'], 10 + i, c['how'] in ('ok', 'ctor_raises'), c['how'] != 'ctor_raises',
-                    c['switch'] is None or truthy(c['switch']), c['order']))
+                    truthy(c['switch']), c['order'], c['switch']))
     return out
+
+
+def usable(order):
+    return order is None or (isinstance(order, (int, float)) and not isinstance(order, str))
+
+
+def model_switch(sw):
+    if isinstance(sw, str) and sw.startswith('env:'):
+        return sw[4:]
+    return sw
 
 
 # ------------------------------------------------------------------------------------------ running: callbacks
@@ -415,7 +445,7 @@ def oracle(case, obs):
     v = []
     if case['kind'] == 'load':
         specs = load_specs(case)
-        loadable = [s for s in specs if s[2] and s[3] and s[4]]
+        loadable = [s for s in specs if s[2] and s[3] and s[4] and usable(s[5])]
         exp = [s[0] for s in sorted(loadable, key=lambda s: (s[5] or 0))]       # sorted() is stable
         if obs['loaded'] != exp:
             got = obs['loaded']
@@ -443,7 +473,7 @@ def oracle(case, obs):
         for o, what in ((ref, 'fault-free run'), (run, 'run')):
             if off['name'] in o['loaded']:
                 v.append(f'{what}: plugin {off["name"]} is switched off by configuration (PLUGIN_{off["name"].upper()}='
-                         f'{off["switch"]!r}) but was loaded: {o["loaded"]}')
+                         f'{off["switch"]!r}) or has an unusable order() ({off["order"]!r}) but was loaded: {o["loaded"]}')
             if o['events'].get(off['name']):
                 v.append(f'{what}: callbacks of the switched-off plugin {off["name"]} ran: {sorted(o["events"][off["name"]])}')
             if any(('deco.' + off['name']) in sn for sn in o.get('snapshots', [])) or ('fc.' + off['name']) in o['resource']:
@@ -510,7 +540,8 @@ def model_request(case, obs):
     if 'raised' in obs:
         return None
     if case['kind'] == 'load':
-        return {'op': 'load', 'specs': [{'id': s[1], 'import_ok': s[2], 'ctor_ok': s[3], 'active': s[4], 'order': s[5]}
+        return {'op': 'load', 'specs': [{'id': s[1], 'import_ok': s[2], 'ctor_ok': s[3], 'switch': model_switch(s[6]),
+                                         'order': s[5] if usable(s[5]) else 'unusable'}
                                         for s in load_specs(case)]}
     if 'raised' in obs['run'] or 'raised' in obs['ref']:
         return None
@@ -539,6 +570,8 @@ def compare(case, obs, resp):
     if case['kind'] == 'load':
         names = {s[1]: s[0] for s in load_specs(case)}
         got = [names[i] for i in resp['loaded']]
+        if resp.get('raises'):
+            return [] if 'raised' in obs else ['model: load_plugins raises; implementation: it returned ' + str(obs.get('loaded'))]
         return [] if got == obs.get('loaded') else [f'loaded: model {got} vs implementation {obs.get("loaded")}']
     d = []
     run = obs['run']
